@@ -3,8 +3,11 @@
     [TInv t tr w]: what the ghost value [w] of thread [t] says about the trace [tr] (while an iteration runs: where its
     invocation is, no other invocation / response of [t] since, every visited element has its "visit" event, [J]);
     [PInv cs w]: every hash present in all configurations [cs] of the execution since the invocation is in [wP w];
-    [Fin t tr cs]: THE completeness statement for every iteration of [t] that is complete in [tr].
-    Each is preserved by every ghost transition [TR] of [t] and by the events of other threads. *)
+    [PE cs w]: every visited / found element was in the tree in one of these configurations;
+    [PX t cs tr w]: what do_erase_at did (a removal step of [t]) / saw (the element gone) since the last visit;
+    [Fin t tr cs]: THE completeness statement for every iteration of [t] that is complete in [tr];
+    [FinE t tr cs]: THE statement about do_erase_at for every "erased" event of [t] in [tr].
+    Each is preserved by every ghost transition [TR] of [t] and by the events of other threads ([Emb_TR], [Emb_other]). *)
 From Coq Require Import ZArith NArith List Bool Arith PeanoNat Lia String.
 From LV Require Import Base.Conc Base.Events Model.Feldman Model.FeldmanIter.
 From LV Require Import Proofs.FeldmanStepInv Proofs.FeldmanStepThm Proofs.FeldmanIterTraceDefs.
@@ -17,6 +20,7 @@ Section TraceInv.
   Notation hash := (Feldman.hash hs).
   Notation present := (FeldmanStepThm.present hs).
   Notation TR := (@FeldmanIterTraceDefs.TR hs).
+  Notation found := FeldmanIterTraceDefs.found.
   Notation config := (Conc.config G V ev).
   Notation J := (@FeldmanIterTraceDefs.J hs).
   Notation visited := (@FeldmanIterTraceDefs.visited hs).
@@ -62,9 +66,27 @@ Section TraceInv.
   Lemma plain_acc e : is_acc e -> plain e.
   Proof. intros (kd & o & b & ->). split; reflexivity. Qed.
   Lemma plain_neutral e : neutral e -> plain e.
-  Proof. intros [->|(b & ->)]; split; reflexivity. Qed.
+  Proof. intros ->; split; reflexivity. Qed.
   Lemma plain_visit k : plain (ev_visit k).
   Proof. split; reflexivity. Qed.
+  Lemma plain_erased b : plain (ev_erased b).
+  Proof. split; reflexivity. Qed.
+  Lemma acc_not_visit e : is_acc e -> ~ is_visit e.
+  Proof. intros (kd & o & b & ->) (k & E). discriminate E. Qed.
+  Lemma acc_not_erased e : is_acc e -> ~ is_erased e.
+  Proof. intros (kd & o & b & ->) (k & E). discriminate E. Qed.
+  Lemma neutral_not_visit e : neutral e -> ~ is_visit e.
+  Proof. intros -> (k & E). discriminate E. Qed.
+  Lemma neutral_not_erased e : neutral e -> ~ is_erased e.
+  Proof. intros -> (k & E). discriminate E. Qed.
+  Lemma quiet_not_visit w es e : quiet w es -> In e es -> ~ is_visit e.
+  Proof.
+    intros Hq He. destruct (Hq e He) as [H|[H|(_ & H & _)]]; [apply acc_not_visit; exact H|apply neutral_not_visit; exact H|exact H].
+  Qed.
+  Lemma quiet_not_erased w es e : quiet w es -> In e es -> ~ is_erased e.
+  Proof.
+    intros Hq He. destruct (Hq e He) as [H|[H|(_ & _ & H & _)]]; [apply acc_not_erased; exact H|apply neutral_not_erased; exact H|exact H].
+  Qed.
   Lemma inv_not_plain c k : ~ plain (ev_inv c k).
   Proof. intros [H _]. discriminate H. Qed.
   Lemma ret_not_plain a b : ~ plain (ev_ret a b).
@@ -72,7 +94,7 @@ Section TraceInv.
 
   Lemma quiet_not_iter_inv w es e : quiet w es -> In e es -> ~ is_iter_inv e.
   Proof.
-    intros Hq He. destruct (Hq e He) as [H|[H|(_ & _ & H)]]; [| |exact H].
+    intros Hq He. destruct (Hq e He) as [H|[H|(_ & _ & _ & H)]]; [| |exact H].
     - intros (c & k & _ & ->). apply (@inv_not_plain c k). apply plain_acc. exact H.
     - intros (c & k & _ & ->). apply (@inv_not_plain c k). apply plain_neutral. exact H.
   Qed.
@@ -111,6 +133,10 @@ Section TraceInv.
     t_vis : wact w = true -> forall y k, In (y, k) (wvis w) -> exists j, wstart w < j /\ nth_error tr j = Some (t, ev_visit k);
     t_vis2 : wact w = true -> forall j k, wstart w < j -> nth_error tr j = Some (t, ev_visit k) -> exists y, In (y, k) (wvis w);
     t_J : wact w = true -> J w;
+    t_v : wact w = true -> wstart w <= wv w /\ wv w < len tr /\
+            (forall j k, wv w < j -> nth_error tr j <> Some (t, ev_visit k)) /\
+            (wstart w < wv w -> nth_error tr (wv w) = Some (t, ev_visit (snd (wcur w)))) /\
+            (fst (wcur w) <> 0 -> wstart w < wv w);
     t_link : forall n c k, nth_error tr n = Some (t, ev_inv c k) -> iter_code c -> noir tr t n (len tr) ->
                wact w = true /\ wstart w = n }.
 
@@ -119,12 +145,16 @@ Section TraceInv.
 
   Lemma TInv_other t tr new w : TInv t tr w -> (forall x, In x new -> fst x <> t) -> TInv t (tr ++ new) w.
   Proof.
-    intros [H1 H2 H3 H3' H4 H5] Hn. constructor.
+    intros [H1 H2 H3 H3' H4 Hv H5] Hn. constructor.
     - intros Ha. destruct (H1 Ha) as (c & k & Hc & E). exists c, k. split; [exact Hc|apply nth_app_old; exact E].
     - intros Ha. apply noir_other; auto.
     - intros Ha y k Hy. destruct (H3 Ha y k Hy) as (j & Hj & E). exists j. split; [exact Hj|apply nth_app_old; exact E].
     - intros Ha j k Hj E. apply nth_app_inv in E. destruct E as [E|(_ & E)]; [eapply H3'; eauto|exfalso; apply (Hn _ E); reflexivity].
     - exact H4.
+    - intros Ha. destruct (Hv Ha) as (V1 & V2 & V3 & V4 & V5). split; [exact V1|]. split; [rewrite app_length; lia|]. split; [|split].
+      + intros j k Hj E. apply nth_app_inv in E. destruct E as [E|(_ & E)]; [eapply V3; eauto|apply (Hn _ E); reflexivity].
+      + intros Hlt. apply nth_app_old. auto.
+      + exact V5.
     - intros n c k E Hc Hno. apply nth_app_inv in E. destruct E as [E|(_ & E)]; [|exfalso; apply (Hn _ E); reflexivity].
       apply (H5 n c k E Hc). apply noir_restrict with (new := new); [lia|].
       intros j e Hj1 Hj2. apply Hno; [exact Hj1|rewrite app_length; lia].
@@ -148,27 +178,47 @@ Section TraceInv.
   Lemma not_iter_inv_plain e : plain e -> ~ is_iter_inv e.
   Proof. intros H (c & k & _ & ->). apply (@inv_not_plain c k). exact H. Qed.
 
-  Lemma TInv_TR t g tr es w w' : TInv t tr w -> TR g tr es w w' -> TInv t (tr ++ Conc.tag t es) w'.
+  (** events that are neither invocation, response nor visit; the fields the trace speaks about unchanged *)
+  Lemma TInv_keep t tr es w w' :
+    TInv t tr w -> (forall e, In e es -> plain e) -> (forall e, In e es -> ~ is_visit e) ->
+    wact w' = wact w -> wstart w' = wstart w -> wvis w' = wvis w -> wv w' = wv w -> wcur w' = wcur w -> (J w -> J w') ->
+    TInv t (tr ++ Conc.tag t es) w'.
   Proof.
-    intros [H1 H2 H3 H3' H4 H5] HT. destruct HT as [-> Hq|c k -> Hc ->|ah' cur' Hacc Ha Hmv Hcur ->|ah' -> Ha Hc0 Hv ->| -> Ha Hnah ->].
+    intros [H1 H2 H3 H3' H4 Hv H5] Hpl Hnv E1 E2 E3 E4 E5 HJ. constructor; rewrite ?E1, ?E2, ?E3, ?E4, ?E5.
+    - intros Ha. destruct (H1 Ha) as (c & k & Hc & E). exists c, k. split; [exact Hc|apply nth_app_old; exact E].
+    - intros Ha. apply noir_app; auto.
+    - intros Ha y k Hy. destruct (H3 Ha y k Hy) as (j & Hj & E). exists j. split; [exact Hj|apply nth_app_old; exact E].
+    - intros Ha j k Hj E. apply nth_tag_inv in E. destruct E as [E|(_ & _ & E)]; [eapply H3'; eauto|].
+      exfalso. apply (Hnv _ E). exists k. reflexivity.
+    - intros Ha. apply HJ. auto.
+    - intros Ha. destruct (Hv Ha) as (V1 & V2 & V3 & V4 & V5). split; [exact V1|]. split; [rewrite len_tag; lia|]. split; [|split].
+      + intros j k Hj E. apply nth_tag_inv in E. destruct E as [E|(_ & _ & E)]; [eapply V3; eauto|]. apply (Hnv _ E). exists k. reflexivity.
+      + intros Hlt. apply nth_app_old. auto.
+      + exact V5.
+    - apply link_keep with (w := w); auto. intros e He. apply not_iter_inv_plain. auto.
+  Qed.
+
+  Lemma TInv_TR t g g' tr es w w' : TInv t tr w -> TR g g' tr es w w' -> TInv t (tr ++ Conc.tag t es) w'.
+  Proof.
+    intros HT HR.
+    destruct HR as [-> Hq Harr|c k -> Hc _ ->|ah' fnd' Hacc Ha _ Hmv Hfnd ->|ah' -> Ha _ Hc0 Hv ->| -> Ha _ Hnah ->
+                   |a i Hacc Hne Ha Hc0 Hs Hr _ ->|Hacc Hne Ha _ Hgone ->|b -> Ha _ Hce Hb1 Hb2 ->].
     - (* same *)
-      constructor.
-      + intros Ha. destruct (H1 Ha) as (c & k & Hc & E). exists c, k. split; [exact Hc|apply nth_app_old; exact E].
-      + intros Ha. apply noir_app; [auto|]. intros e He. eapply quiet_active_plain; eauto.
-      + intros Ha y k Hy. destruct (H3 Ha y k Hy) as (j & Hj & E). exists j. split; [exact Hj|apply nth_app_old; exact E].
-      + intros Ha j k Hj E. apply nth_tag_inv in E. destruct E as [E|(_ & _ & E)]; [eapply H3'; eauto|].
-        exfalso. destruct (Hq _ E) as [X|[X|(X & _)]]; [| |congruence].
-        * destruct X as (kd & o & b & X). discriminate X.
-        * destruct X as [X|(b & X)]; discriminate X.
-      + exact H4.
-      + apply link_keep with (w := w); auto. intros e He. eapply quiet_not_iter_inv; eauto.
+      destruct (wact w) eqn:Ea.
+      + apply TInv_keep with (w := w); auto.
+        * intros e He. eapply quiet_active_plain; eauto.
+        * intros e He. eapply quiet_not_visit; eauto.
+      + destruct HT as [H1 H2 H3 H3' H4 Hv H5]. constructor; try (intros X; congruence).
+        apply link_keep with (w := w); auto. intros e He. eapply quiet_not_iter_inv; eauto.
     - (* start *)
-      constructor; cbn [wact wstart wvis].
+      constructor; cbn [wact wstart wvis wv wcur].
       + intros _. exists c, k. split; [exact Hc|]. rewrite nth_error_app2 by lia. rewrite Nat.sub_diag. reflexivity.
       + intros _ j e Hj1 Hj2 Hj3. rewrite len_tag in Hj2. cbn in Hj2. lia.
       + intros _ y k0 [].
       + intros _ j k0 Hj E. apply nth_lt in E. rewrite len_tag in E. cbn in E. lia.
       + intros _ h _. right. exact I.
+      + intros _. split; [lia|]. split; [rewrite len_tag; cbn; lia|]. split; [|split; [lia|cbn; congruence]].
+        intros j k0 Hj E. apply nth_lt in E. rewrite len_tag in E. cbn in E. lia.
       + intros n c0 k0 E Hc0 Hno. split; [reflexivity|].
         destruct (lt_dec n (len tr)) as [Hl|Hl].
         * exfalso. apply (@inv_not_plain c k). apply (Hno (len tr) (ev_inv c k) Hl).
@@ -176,19 +226,15 @@ Section TraceInv.
           -- rewrite nth_error_app2 by lia. rewrite Nat.sub_diag. reflexivity.
         * apply nth_lt in E. rewrite len_tag in E. cbn in E. lia.
     - (* move *)
-      assert (Hpl : forall e, In e es -> plain e) by (intros e He; apply plain_acc; auto).
-      constructor; cbn [wact wstart wvis].
-      + intros _. destruct (H1 Ha) as (c & k & Hc & E). exists c, k. split; [exact Hc|apply nth_app_old; exact E].
-      + intros _. apply noir_app; auto.
-      + intros _ y k Hy. destruct (H3 Ha y k Hy) as (j & Hj & E). exists j. split; [exact Hj|apply nth_app_old; exact E].
-      + intros _ j k Hj E. apply nth_tag_inv in E. destruct E as [E|(_ & _ & E)]; [eapply H3'; eauto|].
-        exfalso. destruct (Hacc _ E) as (kd & o & b & X). discriminate X.
-      + intros _ h [Hp Hpr]. cbn [wP] in *. destruct (H4 Ha h Hp) as [Hvis|Hah]; [left; exact Hvis|right; cbn [wah]; auto].
-      + apply link_keep with (w := w); auto. intros e He. apply not_iter_inv_plain. auto.
+      apply TInv_keep with (w := w); auto.
+      + intros e He. apply plain_acc. auto.
+      + intros e He. apply acc_not_visit. auto.
+      + intros HJ h [Hp Hpr]. cbn [wP] in *. destruct (HJ h Hp) as [Hvis|Hah]; [left; exact Hvis|right; cbn [wah]; auto].
     - (* visit *)
-      assert (Hpl : forall e, In e [ev_visit (snd (wcur w))] -> plain e) by (intros e [<-|[]]; apply plain_visit).
+      destruct HT as [H1 H2 H3 H3' H4 Hvv H5].
+      assert (Hpl : forall e, In e [ev_visit (snd (wfnd w))] -> plain e) by (intros e [<-|[]]; apply plain_visit).
       destruct (H1 Ha) as (c & k & Hc & E).
-      constructor; cbn [wact wstart wvis].
+      constructor; cbn [wact wstart wvis wv wcur].
       + intros _. exists c, k. split; [exact Hc|apply nth_app_old; exact E].
       + intros _. apply noir_app; auto.
       + intros _ y k0 [Hy|Hy].
@@ -196,19 +242,36 @@ Section TraceInv.
         * destruct (H3 Ha y k0 Hy) as (j & Hj & E'). exists j. split; [exact Hj|apply nth_app_old; exact E'].
       + intros _ j k0 Hj E'. apply nth_tag_inv in E'. destruct E' as [E'|(_ & _ & [E'|[]])].
         * destruct (H3' Ha j k0 Hj E') as (y & Hy). exists y. right. exact Hy.
-        * exists (fst (wcur w)). left. destruct (wcur w) as [y0 k1]. cbn [fst snd] in *. unfold ev_visit in E'. injection E' as E'.
+        * exists (fst (wfnd w)). left. destruct (wfnd w) as [y0 k1]. cbn [fst snd] in *. unfold ev_visit in E'. injection E' as E'.
           apply Nat2Z.inj in E'. subst. reflexivity.
       + intros _ h Hp. cbn [wP wah] in *. destruct (H4 Ha h Hp) as [(y & k0 & Hy & Hk)|Hah].
         * left. exists y, k0. split; [right; exact Hy|exact Hk].
-        * destruct (Hv h Hah) as [Hah'|Eh]; [right; exact Hah'|]. subst h. left. destruct (wcur w) as [y k0]. exists y, k0. split; [left; reflexivity|reflexivity].
+        * destruct (Hv h Hah) as [Hah'|Eh]; [right; exact Hah'|]. subst h. left. destruct (wfnd w) as [y k0]. exists y, k0. split; [left; reflexivity|reflexivity].
+      + intros _. pose proof (nth_lt _ _ E) as Hl. split; [lia|]. split; [rewrite len_tag; cbn; lia|]. split; [|split].
+        * intros j k0 Hj E'. apply nth_lt in E'. rewrite len_tag in E'. cbn in E'. lia.
+        * intros _. rewrite nth_error_app2 by lia. rewrite Nat.sub_diag. reflexivity.
+        * intros _. lia.
       + apply link_keep with (w := w); auto. intros e He. apply not_iter_inv_plain. auto.
     - (* finish *)
+      destruct HT as [H1 H2 H3 H3' H4 Hvv H5].
       constructor; cbn [wact]; try discriminate.
       intros n c k E Hc Hno. exfalso. apply nth_tag_inv in E. destruct E as [E|(_ & _ & [E|[]])]; [|discriminate E].
       apply (@ret_not_plain true false). apply (Hno (len tr) (ev_ret true false)).
       + eapply nth_lt; eauto.
       + rewrite len_tag. cbn. lia.
       + rewrite nth_error_app2 by lia. rewrite Nat.sub_diag. reflexivity.
+    - (* erase *)
+      apply TInv_keep with (w := w); auto.
+      + intros e He. apply plain_acc. auto.
+      + intros e He. apply acc_not_visit. auto.
+    - (* gone *)
+      apply TInv_keep with (w := w); auto.
+      + intros e He. apply plain_acc. auto.
+      + intros e He. apply acc_not_visit. auto.
+    - (* erased *)
+      apply TInv_keep with (w := w); auto.
+      + intros e [<-|[]]. apply plain_erased.
+      + intros e [<-|[]] (k & E). discriminate E.
   Qed.
 
   (** ** the hashes present since the invocation *)
@@ -218,12 +281,13 @@ Section TraceInv.
   Lemma PInv_ext cs cn w : PInv cs w -> PInv (cs ++ [cn]) w.
   Proof. intros H Ha h Hp. apply (H Ha). intros c' Hc. apply Hp. apply in_or_app. left. exact Hc. Qed.
 
-  Lemma PInv_TR t cs g tr es w w' cg :
-    PInv cs w -> TInv t tr w -> TR g tr es w w' ->
+  Lemma PInv_TR t cs g g' tr es w w' cg :
+    PInv cs w -> TInv t tr w -> TR g g' tr es w w' ->
     In cg cs -> Conc.shared cg = g -> len tr <= len (Conc.trace cg) -> PInv cs w'.
   Proof.
-    intros HP HT HR Hcg Hg Hl. destruct HR as [-> Hq|c k -> Hc ->|ah' cur' Hacc Ha Hmv Hcur ->|ah' -> Ha Hc0 Hv ->| -> Ha Hnah ->].
-    - exact HP.
+    intros HP HT HR Hcg Hg Hl.
+    destruct HR as [-> Hq Harr|c k -> Hc _ ->|ah' fnd' Hacc Ha _ Hmv Hfnd ->|ah' -> Ha _ Hc0 Hv ->| -> Ha _ Hnah ->
+                   |a i Hacc Hne Ha Hc0 Hs Hr _ ->|Hacc Hne Ha _ Hgone ->|b -> Ha _ Hce Hb1 Hb2 ->]; try exact HP.
     - intros _ h _. exact I.
     - intros _ h Hp. cbn [wP wstart] in *. split; [apply (HP Ha); exact Hp|]. rewrite <- Hg. apply Hp; [exact Hcg|].
       destruct (t_start HT Ha) as (c & k & _ & E). apply nth_lt in E. lia.
@@ -231,38 +295,107 @@ Section TraceInv.
     - intros X. discriminate X.
   Qed.
 
-  (** every visited element, and the element found last, was in the tree in some configuration since the invocation *)
+  (** every visited element, the element found last and the element of the last visit were in the tree in some
+      configuration since the invocation *)
   Definition was_in (cs : list config) (n : nat) (y k : nat) (c' : config) : Prop :=
     In c' cs /\ n < len (Conc.trace c') /\ (exists a i, data_at (Conc.shared c') a i y) /\ ikey (Conc.shared c') y = k.
 
   Definition PE (cs : list config) (w : WI) : Prop :=
-    wact w = true -> forall y k, In (y, k) (wvis w) \/ ((y, k) = wcur w /\ y <> 0) -> exists c', was_in cs (wstart w) y k c'.
+    wact w = true -> forall y k, In (y, k) (wvis w) \/ (((y, k) = wfnd w \/ (y, k) = wcur w) /\ y <> 0) ->
+      exists c', was_in cs (wstart w) y k c'.
 
   Lemma PE_ext cs cn w : PE cs w -> PE (cs ++ [cn]) w.
   Proof.
     intros H Ha y k Hy. destruct (H Ha y k Hy) as (c' & H1 & H2). exists c'. split; [apply in_or_app; left; exact H1|exact H2].
   Qed.
 
-  Lemma PE_TR t cs g tr es w w' cg :
-    PE cs w -> TInv t tr w -> TR g tr es w w' ->
+  Lemma PE_TR t cs g g' tr es w w' cg :
+    PE cs w -> TInv t tr w -> TR g g' tr es w w' ->
     In cg cs -> Conc.shared cg = g -> len tr <= len (Conc.trace cg) -> PE cs w'.
   Proof.
-    intros HP HT HR Hcg Hg Hl. destruct HR as [-> Hq|c k -> Hc ->|ah' cur' Hacc Ha Hmv Hcur ->|ah' -> Ha Hc0 Hv ->| -> Ha Hnah ->].
-    - exact HP.
-    - intros _ y k0 [[]|[E Hy]]. cbn [wcur] in E. inversion E. subst. congruence.
-    - intros _ y k [Hy|[E Hy]]; cbn [wvis wcur wstart] in *; [apply (HP Ha); left; exact Hy|].
-      destruct Hcur as [->|[(a & i & Hd) Hk]]; [apply (HP Ha); right; auto|].
-      subst cur'. cbn [fst snd] in *. exists cg. split; [exact Hcg|]. split.
+    intros HP HT HR Hcg Hg Hl.
+    destruct HR as [-> Hq Harr|c k -> Hc _ ->|ah' fnd' Hacc Ha _ Hmv Hfnd ->|ah' -> Ha _ Hc0 Hv ->| -> Ha _ Hnah ->
+                   |a i Hacc Hne Ha Hc0 Hs Hr _ ->|Hacc Hne Ha _ Hgone ->|b -> Ha _ Hce Hb1 Hb2 ->]; try exact HP.
+    - intros _ y k0 [[]|[[E|E] Hy]]; cbn [wfnd wcur] in E; inversion E; subst; congruence.
+    - intros _ y k [Hy|[[E|E] Hy]]; cbn [wvis wfnd wcur wstart] in *; [apply (HP Ha); left; exact Hy| |apply (HP Ha); right; auto].
+      destruct Hfnd as [->|[(a & i & Hd) Hk]]; [apply (HP Ha); right; auto|].
+      subst fnd'. cbn [fst snd] in *. exists cg. split; [exact Hcg|]. split.
       + destruct (t_start HT Ha) as (c & k0 & _ & E). apply nth_lt in E. lia.
       + rewrite Hg. split; [exists a, i; exact Hd|exact Hk].
-    - intros _ y k [[Hy|Hy]|[E Hy]]; cbn [wvis wcur wstart] in *.
-      + apply (HP Ha). right. split; [symmetry; exact Hy|]. rewrite Hy in Hc0. exact Hc0.
+    - intros _ y k [[Hy|Hy]|[[E|E] Hy]]; cbn [wvis wfnd wcur wstart] in *.
+      + apply (HP Ha). right. split; [left; symmetry; exact Hy|]. rewrite Hy in Hc0. exact Hc0.
       + apply (HP Ha). left. exact Hy.
+      + apply (HP Ha). right. auto.
       + apply (HP Ha). right. auto.
     - intros X. discriminate X.
   Qed.
 
-  (** ** the completeness statement, for every complete iteration of the trace *)
+  (** what do_erase_at did / saw since the last visit.  [adj cs c1 c2]: consecutive configurations of the execution *)
+  Definition adj (cs : list config) (c1 c2 : config) : Prop := exists l1 l2, cs = l1 ++ c1 :: c2 :: l2.
+
+  Lemma adj_ext cs cn c1 c2 : adj cs c1 c2 -> adj (cs ++ [cn]) c1 c2.
+  Proof. intros (l1 & l2 & ->). exists l1, (l2 ++ [cn]). rewrite <- app_assoc. reflexivity. Qed.
+
+  (** a step of thread [t] from [c1] to [c2] that clears the unflagged slot ( a, i ) holding [x] of a reachable array node *)
+  Definition removal (t : nat) (cs : list config) (c1 c2 : config) (x : nat) : Prop :=
+    adj cs c1 c2 /\ (exists es, Conc.trace c2 = Conc.trace c1 ++ Conc.tag t es) /\
+    exists a i, arr (Conc.shared c1) a i = mkSlot x 0 /\ reach_arr (Conc.shared c1) a /\
+                Conc.shared c2 = with_arr (Conc.shared c1) (set_slot (arr (Conc.shared c1)) a i snull).
+
+  Definition PX (t : nat) (cs : list config) (tr : list (nat * ev)) (w : WI) : Prop :=
+    wact w = true ->
+    (1 <= wrem w -> exists c1 c2, removal t cs c1 c2 (fst (wcur w)) /\ wv w < len (Conc.trace c1) /\ len (Conc.trace c1) < len tr) /\
+    (wgone w = true -> exists c', In c' cs /\ wv w < len (Conc.trace c') /\ forall a i, ~ data_at (Conc.shared c') a i (fst (wcur w))).
+
+  Lemma PX_ext t cs cn tr new w : PX t cs tr w -> PX t (cs ++ [cn]) (tr ++ new) w.
+  Proof.
+    intros H Ha. destruct (H Ha) as [H1 H2]. split.
+    - intros Hr. destruct (H1 Hr) as (c1 & c2 & (R1 & R2) & R3 & R4). exists c1, c2. split; [split; [apply adj_ext; exact R1|exact R2]|].
+      split; [exact R3|rewrite app_length; lia].
+    - intros Hg. destruct (H2 Hg) as (c' & G1 & G2). exists c'. split; [apply in_or_app; left; exact G1|exact G2].
+  Qed.
+
+  Lemma PX_tr t cs tr new w : PX t cs tr w -> PX t cs (tr ++ new) w.
+  Proof.
+    intros H Ha. destruct (H Ha) as [H1 H2]. split; [|exact H2].
+    intros Hr. destruct (H1 Hr) as (c1 & c2 & R1 & R3 & R4). exists c1, c2. split; [exact R1|]. split; [exact R3|rewrite app_length; lia].
+  Qed.
+
+  (** the step from [cg] (state [g]) to [cg'] (state [g']): either the state is unchanged or they are consecutive
+      configurations, the trace so far is that of [cg], and the step is [t]'s *)
+  Definition stepinfo (t : nat) (cs : list config) (g g' : G) (tr : list (nat * ev)) (cg : config) : Prop :=
+    In cg cs /\ Conc.shared cg = g /\ len tr <= len (Conc.trace cg) /\
+    (g' = g \/ exists cg', adj cs cg cg' /\ Conc.shared cg' = g' /\ len (Conc.trace cg) = len tr /\
+                           exists es, Conc.trace cg' = Conc.trace cg ++ Conc.tag t es).
+
+  Lemma PX_TR t cs g g' tr es w w' cg :
+    PX t cs tr w -> TInv t tr w -> TR g g' tr es w w' -> stepinfo t cs g g' tr cg -> PX t cs (tr ++ Conc.tag t es) w'.
+  Proof.
+    intros HP HT HR (Hcg & Hg & Hl & Hstep).
+    destruct HR as [-> Hq Harr|c k -> Hc _ ->|ah' fnd' Hacc Ha _ Hmv Hfnd ->|ah' -> Ha _ Hc0 Hv ->| -> Ha _ Hnah ->
+                   |a i Hacc Hne Ha Hc0 Hs Hr Eg' ->|Hacc Hne Ha _ Hgone ->|b -> Ha _ Hce Hb1 Hb2 ->].
+    - apply PX_tr. exact HP.
+    - intros _. cbn [wrem wgone]. split; [lia|discriminate].
+    - pose proof (@PX_tr t cs tr (Conc.tag t es) w HP) as HP'. intros _. cbn [wrem wgone wcur wv]. apply (HP' Ha).
+    - intros _. cbn [wrem wgone]. split; [lia|discriminate].
+    - intros X. discriminate X.
+    - (* erase *)
+      intros _. cbn [set_rem wrem wgone wcur wv]. destruct (t_v HT Ha) as (V1 & V2 & _).
+      split; [|apply (proj2 (@PX_tr t cs tr (Conc.tag t es) w HP Ha))].
+      intros _. destruct Hstep as [Eq|(cg' & Hadj & Hg' & Hlen & Htag)].
+      + exfalso. rewrite Eg' in Eq. apply (f_equal (fun x => arr x a i)) in Eq. cbn [arr with_arr] in Eq.
+        rewrite set_slot_same in Eq. rewrite Hs in Eq. unfold snull in Eq. inversion Eq as [E0]. congruence.
+      + exists cg, cg'. split.
+        * split; [exact Hadj|]. split; [exact Htag|]. exists a, i. rewrite Hg, Hg'. auto.
+        * split; [lia|]. rewrite len_tag. destruct es; [congruence|cbn; lia].
+    - (* gone *)
+      intros _. cbn [set_gone wrem wgone wcur wv]. destruct (t_v HT Ha) as (V1 & V2 & _).
+      split; [apply (proj1 (@PX_tr t cs tr (Conc.tag t es) w HP Ha))|].
+      intros _. exists cg. split; [exact Hcg|]. split; [lia|]. rewrite Hg. exact Hgone.
+    - apply PX_tr. exact HP.
+  Qed.
+
+  (** ** the statements about complete iterations and about "erased" events *)
   Definition upto (cs : list config) (m : nat) (c' : config) : Prop :=
     forall c1, In c1 cs -> m < len (Conc.trace c1) -> len (Conc.trace c') <= len (Conc.trace c1).
 
@@ -364,25 +497,105 @@ Section TraceInv.
       destruct (HE Ha y k' (or_introl Hy)) as (c' & Wc). exists y, c'. rewrite <- Hs. split; [exact Wc|apply UP; apply Wc].
   Qed.
 
-  (** ** all three together *)
-  Definition Emb (t : nat) (cs : list config) (tr : list (nat * ev)) (w : WI) : Prop :=
-    TInv t tr w /\ PInv cs w /\ PE cs w /\ Fin t tr cs.
+  (** for the "erased b" event at [e]: the last visit of [t] before it, at [v], visited element [x] with key [k];
+      [b = true]: a step of [t] after that visit removed exactly [x] (cleared the unflagged slot that held it);
+      [b = false]: in some configuration after that visit [x] was at no position of the tree *)
+  Definition ErC (t : nat) (tr : list (nat * ev)) (cs : list config) (e : nat) (b : bool) : Prop :=
+    exists v k x, v < e /\ nth_error tr v = Some (t, ev_visit k) /\
+      (forall j k', v < j -> j < e -> nth_error tr j <> Some (t, ev_visit k')) /\
+      x <> 0 /\ (exists c', In c' cs /\ (exists a i, data_at (Conc.shared c') a i x) /\ ikey (Conc.shared c') x = k) /\
+      (b = true -> exists c1 c2, removal t cs c1 c2 x /\ v < len (Conc.trace c1) /\ len (Conc.trace c1) < e) /\
+      (b = false -> exists c', In c' cs /\ v < len (Conc.trace c') /\ forall a i, ~ data_at (Conc.shared c') a i x).
 
-  Lemma Emb_TR t cs g tr es w w' cg L :
-    Emb t cs tr w -> TR g tr es w w' ->
-    In cg cs -> Conc.shared cg = g -> len tr <= len (Conc.trace cg) ->
+  Definition FinE (t : nat) (tr : list (nat * ev)) (cs : list config) : Prop :=
+    forall e b, nth_error tr e = Some (t, ev_erased b) -> ErC t tr cs e b.
+
+  Lemma FinE_init t cs : FinE t [] cs.
+  Proof. intros e b H. destruct e; discriminate. Qed.
+
+  Lemma ErC_ext t tr new cs cs' e b :
+    e < len tr -> (forall c', In c' cs -> In c' cs') -> (forall c1 c2, adj cs c1 c2 -> adj cs' c1 c2) ->
+    ErC t tr cs e b -> ErC t (tr ++ new) cs' e b.
+  Proof.
+    intros He Hin Hadj (v & k & x & H1 & H2 & H3 & Hx & (c' & H4 & H5) & H6 & H7).
+    exists v, k, x. split; [exact H1|]. split; [apply nth_app_old; exact H2|]. split.
+    { intros j k' J1 J2. rewrite nth_app_lt by lia. auto. }
+    split; [exact Hx|]. split; [exists c'; split; [apply Hin; exact H4|exact H5]|]. split.
+    - intros Hb. destruct (H6 Hb) as (c1 & c2 & (R1 & R2) & R3). exists c1, c2. split; [split; [apply Hadj; exact R1|exact R2]|exact R3].
+    - intros Hb. destruct (H7 Hb) as (c1 & G1 & G2). exists c1. split; [apply Hin; exact G1|exact G2].
+  Qed.
+
+  Lemma FinE_cs_ext t tr cs cn : FinE t tr cs -> FinE t tr (cs ++ [cn]).
+  Proof.
+    intros HF e b E. rewrite <- (app_nil_r tr). apply ErC_ext with (cs := cs).
+    - eapply nth_lt; eauto.
+    - intros c' H. apply in_or_app. left. exact H.
+    - intros c1 c2. apply adj_ext.
+    - apply HF. exact E.
+  Qed.
+
+  Lemma FinE_other t tr new cs : FinE t tr cs -> (forall x, In x new -> fst x <> t) -> FinE t (tr ++ new) cs.
+  Proof.
+    intros HF Hn e b E. apply nth_app_inv in E. destruct E as [E|(_ & E)]; [|exfalso; apply (Hn _ E); reflexivity].
+    apply ErC_ext with (cs := cs); auto. eapply nth_lt; eauto.
+  Qed.
+
+  Lemma FinE_keep t tr es cs : FinE t tr cs -> (forall e, In e es -> ~ is_erased e) -> FinE t (tr ++ Conc.tag t es) cs.
+  Proof.
+    intros HF Hn e b E. apply nth_tag_inv in E. destruct E as [E|(_ & _ & E)]; [|exfalso; apply (Hn _ E); exists b; reflexivity].
+    apply ErC_ext with (cs := cs); auto. eapply nth_lt; eauto.
+  Qed.
+
+  Lemma FinE_erased t tr cs w b :
+    TInv t tr w -> PE cs w -> PX t cs tr w -> wact w = true -> fst (wcur w) <> 0 ->
+    (b = true -> wrem w = 1) -> (b = false -> wrem w = 0 /\ wgone w = true) ->
+    FinE t tr cs -> FinE t (tr ++ Conc.tag t [ev_erased b]) cs.
+  Proof.
+    intros HT HE HX Ha Hc0 Hb1 Hb2 HF e b' E. apply nth_tag_inv in E. destruct E as [E|(E1 & _ & [E|[]])].
+    - apply ErC_ext with (cs := cs); auto. eapply nth_lt; eauto.
+    - unfold ev_erased in E. assert (b' = b) by (destruct b, b'; cbn in E; congruence). subst b'. clear E.
+      destruct (t_v HT Ha) as (V1 & V2 & V3 & V4 & V5). destruct (HX Ha) as [X1 X2]. specialize (V5 Hc0). specialize (V4 V5).
+      assert (LT : forall c0 : config, len (Conc.trace c0) < len tr -> len (Conc.trace c0) < e) by (intros; lia).
+      exists (wv w), (snd (wcur w)), (fst (wcur w)). split; [lia|]. split; [apply nth_app_old; exact V4|]. split.
+      { intros j k' J1 J2 J3. apply nth_tag_inv in J3. destruct J3 as [J3|(_ & _ & [J3|[]])]; [eapply V3; eauto|discriminate J3]. }
+      split; [exact Hc0|]. split.
+      { destruct (HE Ha (fst (wcur w)) (snd (wcur w))) as (c' & W1 & _ & W3 & W4).
+        - right. split; [right; destruct (wcur w); reflexivity|exact Hc0].
+        - exists c'. auto. }
+      split.
+      + intros Hb. destruct (X1 ltac:(rewrite (Hb1 Hb); lia)) as (c1 & c2 & R1 & R2 & R3). exists c1, c2. auto.
+      + intros Hb. destruct (Hb2 Hb) as [_ Hg]. exact (X2 Hg).
+  Qed.
+
+  (** ** all together *)
+  Definition Emb (t : nat) (cs : list config) (tr : list (nat * ev)) (w : WI) : Prop :=
+    TInv t tr w /\ PInv cs w /\ PE cs w /\ PX t cs tr w /\ Fin t tr cs /\ FinE t tr cs.
+
+  Lemma Emb_TR t cs g g' tr es w w' cg L :
+    Emb t cs tr w -> TR g g' tr es w w' -> stepinfo t cs g g' tr cg ->
     (forall c', In c' cs -> len (Conc.trace c') <= len tr \/ len (Conc.trace c') = L) ->
     (forall c', In c' cs -> len (Conc.trace c') <= L) ->
     Emb t cs (tr ++ Conc.tag t es) w'.
   Proof.
-    intros (HT & HP & HE & HF) HR Hcg Hg Hl Hcs HL. split; [eapply TInv_TR; eauto|]. split; [eapply PInv_TR; eauto|].
-    split; [eapply PE_TR; eauto|].
-    destruct HR as [-> Hq|c k -> Hc ->|ah' cur' Hacc Ha Hmv Hcur ->|ah' -> Ha Hc0 Hv ->| -> Ha Hnah ->].
-    - eapply Fin_same; eauto.
-    - apply Fin_keep; [exact HF|]. intros [E|[]]. discriminate E.
-    - apply Fin_keep; [exact HF|]. intros E. apply (@ret_not_plain true false). apply plain_acc. auto.
-    - apply Fin_keep; [exact HF|]. intros [E|[]]. discriminate E.
-    - eapply Fin_finish; eauto.
+    intros (HT & HP & HE & HX & HF & HFE) HR Hst Hcs HL. pose proof Hst as (Hcg & Hg & Hl & _).
+    split; [eapply TInv_TR; eauto|]. split; [eapply PInv_TR; eauto|]. split; [eapply PE_TR; eauto|]. split; [eapply PX_TR; eauto|].
+    destruct HR as [-> Hq Harr|c k -> Hc _ ->|ah' fnd' Hacc Ha _ Hmv Hfnd ->|ah' -> Ha _ Hc0 Hv ->| -> Ha _ Hnah ->
+                   |a i Hacc Hne Ha Hc0 Hs Hr Eg' ->|Hacc Hne Ha _ Hgone ->|b -> Ha _ Hce Hb1 Hb2 ->].
+    - split; [eapply Fin_same; eauto|]. apply FinE_keep; [exact HFE|]. intros e He. eapply quiet_not_erased; eauto.
+    - split; [apply Fin_keep; [exact HF|]; intros [E|[]]; discriminate E|].
+      apply FinE_keep; [exact HFE|]. intros e [<-|[]] (b & E). discriminate E.
+    - split; [apply Fin_keep; [exact HF|]; intros E; apply (@ret_not_plain true false); apply plain_acc; auto|].
+      apply FinE_keep; [exact HFE|]. intros e He. apply acc_not_erased. auto.
+    - split; [apply Fin_keep; [exact HF|]; intros [E|[]]; discriminate E|].
+      apply FinE_keep; [exact HFE|]. intros e [<-|[]] (b & E). discriminate E.
+    - split; [eapply Fin_finish; eauto|].
+      apply FinE_keep; [exact HFE|]. intros e [<-|[]] (b & E). discriminate E.
+    - split; [apply Fin_keep; [exact HF|]; intros E; apply (@ret_not_plain true false); apply plain_acc; auto|].
+      apply FinE_keep; [exact HFE|]. intros e He. apply acc_not_erased. auto.
+    - split; [apply Fin_keep; [exact HF|]; intros E; apply (@ret_not_plain true false); apply plain_acc; auto|].
+      apply FinE_keep; [exact HFE|]. intros e He. apply acc_not_erased. auto.
+    - split; [apply Fin_keep; [exact HF|]; intros [E|[]]; discriminate E|].
+      eapply FinE_erased; eauto.
   Qed.
 
   Lemma Emb_other t cs cn tr new w :
@@ -390,14 +603,16 @@ Section TraceInv.
     (forall c', In c' cs -> len (Conc.trace c') <= len (Conc.trace cn)) ->
     Emb t (cs ++ [cn]) (tr ++ new) w.
   Proof.
-    intros (HT & HP & HE & HF) Hn Hcn. split; [apply TInv_other; auto|]. split; [apply PInv_ext; exact HP|].
-    split; [apply PE_ext; exact HE|].
-    apply Fin_other; [|exact Hn]. apply Fin_cs_ext; auto.
+    intros (HT & HP & HE & HX & HF & HFE) Hn Hcn. split; [apply TInv_other; auto|]. split; [apply PInv_ext; exact HP|].
+    split; [apply PE_ext; exact HE|]. split; [apply PX_ext; exact HX|].
+    split; [apply Fin_other; [|exact Hn]; apply Fin_cs_ext; auto|].
+    apply FinE_other; [|exact Hn]. apply FinE_cs_ext. exact HFE.
   Qed.
 
   Lemma Emb_cs_ext t cs cn tr w :
     Emb t cs tr w -> (forall c', In c' cs -> len (Conc.trace c') <= len (Conc.trace cn)) -> Emb t (cs ++ [cn]) tr w.
   Proof.
-    intros (HT & HP & HE & HF) Hcn. split; [exact HT|]. split; [apply PInv_ext; exact HP|]. split; [apply PE_ext; exact HE|apply Fin_cs_ext; auto].
+    intros (HT & HP & HE & HX & HF & HFE) Hcn. split; [exact HT|]. split; [apply PInv_ext; exact HP|]. split; [apply PE_ext; exact HE|].
+    split; [rewrite <- (app_nil_r tr); apply PX_ext; exact HX|]. split; [apply Fin_cs_ext; auto|apply FinE_cs_ext; exact HFE].
   Qed.
 End TraceInv.
